@@ -147,6 +147,32 @@ Theorem C09_red_curve : forall f rate rc eid s p u s' outs,
 Proof. exact red_curve_rule. Qed.
 Print Assumptions C09_red_curve.
 
+(* the step configuration min_threshold = max_threshold is covered by C09_red_curve (its hypothesis is min <= max);
+   spelled out, with no quotient by max - min = 0 anywhere: one draw, refused iff u <= max_probability *)
+Theorem C09_red_step : forall f rate rc eid s p u s' outs,
+  r_min rc == r_max rc -> r_max rc <= r_qlimit rc ->
+  port_act (red_cfg f rate rc eid) s (PPut p u) = Some (s', outs) ->
+  r_min rc <= pavg s' -> pavg s' < r_qlimit rc ->
+  exists x, u = Some x /\ (In (ODrop p) outs <-> x <= r_maxp rc).
+Proof. exact red_step_rule. Qed.
+Print Assumptions C09_red_step.
+
+(* ... and its hypotheses are met by a reachable state (non-vacuity) *)
+Theorem C09_ex_red_step :
+  exists s tr s' outs,
+    port_run (red_cfg all_fixed 64 step_rc None) (port0 0) [PInit; PPut (exP 0 0 8 0) None] = Some (s, tr) /\
+    port_act (red_cfg all_fixed 64 step_rc None) s (PPut (exP 1 0 8 0) (Some (1 # 2))) = Some (s', outs) /\
+    r_min step_rc == r_max step_rc /\ r_max step_rc <= r_qlimit step_rc /\
+    r_min step_rc <= pavg s' /\ pavg s' < r_qlimit step_rc /\ In (ODrop (exP 1 0 8 0)) outs.
+Proof. exact red_step_witness. Qed.
+Print Assumptions C09_ex_red_step.
+
+(* the model takes the linear branch (the only place with a quotient by max - min) only when min < max *)
+Theorem C09_red_linear_branch_needs_gap : forall rc s p x r a,
+  red_policy rc s p (Some x) = Some (r, a) -> a < r_max rc -> r_min rc < r_max rc.
+Proof. exact red_linear_branch_needs_gap. Qed.
+Print Assumptions C09_red_linear_branch_needs_gap.
+
 (* ---- the code as found, one repair withheld at a time, violates the statements ---- *)
 Theorem C09_port_drop_rule_refuted_before_fix :
   exists acts s tr p s' outs,
